@@ -22,5 +22,15 @@ CHECKS = {
                  "hand-coded 2x2 inverses/determinants are proved, 3x3 inverses are proved to apply numpy.linalg.inv to F_prime at the same state under a det!=0 guard; Newton step and exit condition by a one-iteration step obligation on the real loop body.",
          "note": COMMON_NOTE + "Assumed: numpy.linalg.inv/det (A5). Not proved: convergence of the Newton iteration to the D>0 branch from a reasonable guess (no contract within reach expresses 'reasonable'); that clause is exercised only by the black-box Noh bounded checks of C02/C07.",
          "technique": "symbolic execution of real source + derivative/inverse VCs discharged by ring normaliser; modular abstract-EOS contract"},
+ "C13": {"text": "Deductive: for Kenamond 1/2/3 (2-D and 3-D) and the DSD cylindrical expansion, on every path of the real _run with symbolic detonators, radii, speeds and points: eikonal identity with the speed of the local material "
+                 "(DSD: 1/(D_CJ-alpha/r)), value equal to the documented first-arrival formula (K2: min/max of the six documented pieces, each active piece proved to lie in its own material; K3: line-of-sight iff theta<=0), "
+                 "bt >= detonation time, value at each detonator, agreement of one-sided expressions on |p|=R, theta=0, r=r_1, r=r_2, independence of t.",
+         "note": COMMON_NOTE + "Cited, not machine-checked: eikonal+continuity => Lipschitz bound (A6); theta=0 <=> p.d=R^2-l_da*l_bp (arccos addition law). K2 detonator values are proved under the precondition that no detonator is swept before it fires; DSD under r_i > alpha_i/D_CJ_i.",
+         "technique": "symbolic execution of real source + eikonal/continuity VCs (ring normaliser modulo radicals) + z3 for path conditions and min/max"},
+ "C15": {"text": "Deductive: Blake._run executed symbolically for an arbitrary positive-definite isotropic material: wave equation with c_l^2=M/rho, strains are derivatives of the returned displacement, Hooke's law for every returned stress field, "
+                 "density, cavity-wall traction, zero field ahead of the front and continuity at the front; set_elastic_params executed symbolically (dict namespace, exec of constant strings, 1j markers) for each of the 15 parameter pairs: on every returning path "
+                 "the six moduli satisfy the isotropic identities, reproduce the supplied pair, are positive definite, (E,M) returns the + branch; all other paths raise ValueError.",
+         "note": COMMON_NOTE + "np.isclose guards are modelled over the reals; Blake.__init__'s own argument plumbing is covered by C05/C20, not here.",
+         "technique": "symbolic execution of real source + PDE/Hooke/identity VCs discharged by ring normaliser (exp/sin/cos atoms) and z3"},
 }
 NOT_APPLICABLE = {}
